@@ -939,6 +939,7 @@ func (m *Machine) rangeIter(x Value) Value {
 		}
 		for _, e := range x.Entries {
 			it.keys = append(it.keys, e.k)
+			it.ents = append(it.ents, e)
 		}
 		return it
 	case string, *SStr:
@@ -951,12 +952,12 @@ func (m *Machine) next(it Value, instr *ssa.Next) Value {
 	switch it := it.(type) {
 	case *mapIter:
 		for it.pos < len(it.order) {
-			k := it.keys[it.order[it.pos]]
+			ent := it.ents[it.order[it.pos]]
 			it.pos++
-			// entry may have been deleted meanwhile
+			// the entry may have been deleted meanwhile
 			for _, e := range it.m.Entries {
-				if e.k == k || isSameKey(e.k, k) {
-					return Tuple{true, k, copyVal(e.v)}
+				if e == ent {
+					return Tuple{true, copyVal(e.k), copyVal(e.v)}
 				}
 			}
 		}
